@@ -2,6 +2,8 @@ package main
 
 import (
 	"go/ast"
+	"os"
+	"strconv"
 	"strings"
 )
 
@@ -75,4 +77,89 @@ func factParse() {
 	}
 	emit("/-- F13c: the integral slice parsers parse each trimmed element with base 0 and the element's own bit size -/\ndef intSliceElementBits : Bool := %v\n\n", okBits == 2 && okTrim == 2)
 	emit("/-- F13d: the integral slice parsers map the empty string to the empty slice (repaired defect D13a) -/\ndef intSliceEmptyOk : Bool := %v\n\n", okEmpty == 2)
+}
+
+func init() { allFacts = append(allFacts, factScanner) }
+
+// F13s: how splitStringsSlice and splitMap configure text/scanner: the Mode, the loop condition and the custom
+// IsIdentRune (deny list, allow list, "white space below ' '" test, unicode.IsPrint, false)
+func factScanner() {
+	type cfg struct{ deny, allow []string }
+	get := func(rel, fn, id, cond string) cfg {
+		var c cfg
+		okMode, okLoop, okShape := false, false, false
+		f := parse(rel)
+		if fd := funcDecl(f, fn); fd != nil {
+			ast.Inspect(fd, func(n ast.Node) bool {
+				switch x := n.(type) {
+				case *ast.AssignStmt:
+					if len(x.Lhs) != 1 || len(x.Rhs) != 1 {
+						return true
+					}
+					if src(x.Lhs[0]) == "sc.Mode" {
+						// ScanInts / ScanFloats (splitMap) change nothing: Scan tests isIdentRune first and the custom
+						// function accepts digits, '.', '+' and '-'
+						mode := " " + src(x.Rhs[0]) + " "
+						okMode = !strings.Contains(mode, "ScanComments")
+						for _, w := range []string{"ScanStrings", "ScanRawStrings", "ScanIdents", "ScanChars"} {
+							okMode = okMode && strings.Contains(mode, "scanner."+w+" ")
+						}
+					}
+					fl, isFn := x.Rhs[0].(*ast.FuncLit)
+					if src(x.Lhs[0]) != "sc.IsIdentRune" || !isFn || len(fl.Body.List) != 4 {
+						return true
+					}
+					sw, isSw := fl.Body.List[0].(*ast.SwitchStmt)
+					if !isSw || src(sw.Tag) != "ch" || len(sw.Body.List) != 3 {
+						return true
+					}
+					lists := [2][]string{}
+					for i := 0; i < 2; i++ {
+						cc := sw.Body.List[i].(*ast.CaseClause)
+						want := []string{"return false", "return true"}[i]
+						if len(cc.Body) != 1 || src(cc.Body[0]) != want {
+							return true
+						}
+						for _, e := range cc.List {
+							bl, isLit := e.(*ast.BasicLit)
+							if !isLit {
+								return true
+							}
+							u, err := strconv.Unquote(bl.Value)
+							if err != nil || len([]rune(u)) != 1 {
+								return true
+							}
+							lists[i] = append(lists[i], strconv.Itoa(int([]rune(u)[0])))
+						}
+					}
+					if d := sw.Body.List[2].(*ast.CaseClause); d.List != nil || len(d.Body) != 0 {
+						return true
+					}
+					if os.Getenv("FACTS_DEBUG") != "" {
+						println(src(fl.Body.List[1]), "|", src(fl.Body.List[2]), "|", src(fl.Body.List[3]))
+					}
+					if src(fl.Body.List[1]) == "if (ch < ' ' && ch >= 0) && (sc.Whitespace&(1<<ch) > 0) { return false }" &&
+						src(fl.Body.List[2]) == "if unicode.IsPrint(ch) { return true }" && src(fl.Body.List[3]) == "return false" {
+						okShape = true
+						c.deny, c.allow = lists[0], lists[1]
+					}
+				case *ast.ForStmt:
+					if x.Cond != nil && src(x.Cond) == cond && src(x.Init) == "tok := sc.Scan()" && src(x.Post) == "tok = sc.Scan()" {
+						okLoop = true
+					}
+				}
+				return true
+			})
+		}
+		if !okMode || !okLoop || !okShape {
+			miss(id, rel+": "+fn+": sc.Mode = ScanStrings|ScanRawStrings|ScanIdents|ScanChars; for tok := sc.Scan(); "+cond+"; tok = sc.Scan(); IsIdentRune = deny list / allow list / white-space test / unicode.IsPrint")
+		}
+		return c
+	}
+	s := get("parse/split_string_slice.go", "splitStringsSlice", "F13s-slice", "tok != scanner.EOF && sc.ErrorCount == 0")
+	m := get("parse/split_map.go", "splitMap", "F13s-map", "sc.ErrorCount == 0") // EOF is a case inside the loop there
+	emit("/-- F13s: code points the custom IsIdentRune of splitStringsSlice refuses / accepts outright -/\n")
+	emit("def sliceIdentDeny : List Nat := [%s]\ndef sliceIdentAllow : List Nat := [%s]\n\n", strings.Join(s.deny, ", "), strings.Join(s.allow, ", "))
+	emit("/-- F13s: the same two lists of splitMap (the colon is refused there) -/\n")
+	emit("def mapIdentDeny : List Nat := [%s]\ndef mapIdentAllow : List Nat := [%s]\n\n", strings.Join(m.deny, ", "), strings.Join(m.allow, ", "))
 }
